@@ -95,6 +95,8 @@ var unValues = []string{
 	"0b111111111111111111111111111111111111111111111111111111111111111", "0b1000000000000000000000000000000000000000000000000000000000000000",
 	"-0b1000000000000000000000000000000000000000000000000000000000000000", "0b1111111111111111111111111111111111111111111111111111111111111111", "9_223_372_036_854_775_808", "-0b1000_0000", "0b1111_1111",
 	"0e0", "-0e0", "1.5e0", "3.4028234663852886e38", "3.4028235677973366e38", "-3.5e38", "1e39", "1e-50", "1.7976931348623157e308", "nan", "+inf", "-inf", "16777217e0",
+	// whole floats at the edges of the integer widths (a conversion through an integer wraps there)
+	"9223372036854775808e0", "-9223372036854775808e0", "9223372036854774784e0", "18446744073709551616e0", "9007199254740992e0", "9007199254740993e0", "4294967296e0", "2147483648e0", "-2147483649e0", "1e19", "1e22", "1e23", "5e-324",
 	"0.", "-0.", "1.5", "-1234567890123456789012345678901234567890d-5", "1d100",
 	"2020T", "2020-02-29T12:34:56.789+05:30", "0001-01-01T00:00:00-00:00", "9999-12-31T23:59:59.999999999Z",
 	"abc", "'hello world'", "''", "$0", "$4", "'$5'", "null_", "'null'",
@@ -215,7 +217,7 @@ func expect(v *model.Value, t reflect.Type) expectation {
 			return exMustSucceed
 		}
 		if t == tDecimal {
-			return exOpen
+			return exIfOKFaithful
 		}
 		return exMustError
 	case model.Decimal:
@@ -375,6 +377,20 @@ func faithful(v *model.Value, got reflect.Value) string {
 			if i < len(v.Bytes) && byte(got.Index(i).Uint()) != v.Bytes[i] {
 				return fmt.Sprintf("byte %d is %d, want %d", i, got.Index(i).Uint(), v.Bytes[i])
 			}
+		}
+		return ""
+	}
+	// a float into a Decimal: whatever digits are chosen, they have to denote that float
+	if v.Kind == model.Float && t == tDecimal {
+		d := got.Interface().(ion.Decimal)
+		co, ex := d.CoEx()
+		back, _, err := big.ParseFloat(fmt.Sprintf("%se%d", co.String(), ex), 10, 2000, big.ToNearestEven)
+		if err != nil {
+			return "the Decimal stored for a float cannot be read as a number: " + err.Error()
+		}
+		f64, _ := back.Float64()
+		if want := math.Float64frombits(v.F); f64 != want {
+			return fmt.Sprintf("the Decimal stored for the float %v is %v, which denotes %v", want, d.String(), f64)
 		}
 		return ""
 	}
